@@ -93,6 +93,11 @@ class KeyValueExecutableSpec(ExecutableSpec):
             dict(self.key_value_pairs) == dict(other.key_value_pairs)
         )
 
+    def __hash__(self):
+        # Consistent with __eq__: the order of the key-value pairs doesn't matter.
+        hash(self.key_value_pairs)  # A list of pairs stays unhashable, as for the other fields.
+        return hash((self.executable_family, frozenset(dict(self.key_value_pairs).items())))
+
 
 @dataclass(frozen=True)
 class BitstringsMeasurement:
